@@ -6,7 +6,8 @@
    comma-joined join values are k, in left-file order; right_out o L r = what the nested-loop reading of the property
    statement prescribes for right record r: its pairs (compose l r, left-file order), or nothing under --np, or, when
    it matches nothing / has no key, its unpaired form under --ur. *)
-From Miller Require Import Base.Bytes Base.Record C13.Model C13.Proofs C13.ProofsSorted.
+From Miller Require Import Base.Bytes Base.Record C13.Model C13.Proofs C13.ProofsSorted C13.Order C13.ProofsMerge.
+From Coq Require Import Sorted.
 From Coq Require Import Permutation.
 
 (* unsorted join = nested loop, in right-stream order then left-file order, for every flag combination;
@@ -87,8 +88,8 @@ Print Assumptions C13_composition_other_names.
    and/or its pairs), plus a final flush; and the left records behind the flushed ones (before renaming), together with
    some rest D (the records of buckets that were paired), are a permutation of the left file: no left record is emitted
    as unpaired twice, none is invented, none is lost without its bucket having been paired.
-   _partial: this is the left-record accounting only.  NOT proved: that on key-sorted inputs the multiset of output
-   records equals the default mode's (correspondence on sorted and unsorted inputs + oracle on mlr's output only). *)
+   _partial: this is the left-record accounting only, but it needs no sortedness and no key-completeness; the equality
+   with the default mode on key-sorted inputs is C13_sorted_equals_unsorted_partial below. *)
 Theorem C13_sorted_mode_accounts_for_left_records_partial :
   forall o left right, ul o = true ->
   exists (steps : list (list record * list record)) (final D : list record),
@@ -98,6 +99,34 @@ Theorem C13_sorted_mode_accounts_for_left_records_partial :
     /\ Permutation (lefts o left) (List.concat (map fst steps) ++ final ++ D).
 Proof. exact join_sorted_conserves_left. Qed.
 Print Assumptions C13_sorted_mode_accounts_for_left_records_partial.
+
+(* sorted-input mode (-s) = default mode as multisets of records, on key-sorted inputs, for every flag combination,
+   duplicate keys on both sides and key-less right records.
+   left_sorted: the left records are in non-decreasing order of their join values compared field by field as bytes
+   (what -s documents); ROK: the same for the keyed right records, plus "the comma-joined key text identifies the key"
+   among the records at hand (the default mode buckets by that text: finding join-key-comma-collision).
+   _partial: side condition that every left record (after --lk) has all its join fields (non-empty under --ignore-empty);
+   key-less LEFT records on sorted input are covered by correspondence and the oracle only. *)
+Theorem C13_sorted_equals_unsorted_partial :
+  forall o left right,
+    (forall l, In l (lefts o left) -> has_keys o l = true) ->
+    List.length (lj o) = List.length (rj o) ->
+    left_sorted o (lefts o left) ->
+    ROK o (lefts o left) right ->
+    Permutation (join_sorted o left right) (join_unsorted o left right).
+Proof. exact join_sorted_perm_unsorted. Qed.
+Print Assumptions C13_sorted_equals_unsorted_partial.
+
+(* with ONE join field the identification condition is automatic: sorted inputs suffice *)
+Theorem C13_sorted_equals_unsorted_single_field_partial :
+  forall o left right,
+    List.length (lj o) = 1%nat -> List.length (rj o) = 1%nat ->
+    (forall l, In l (lefts o left) -> has_keys o l = true) ->
+    left_sorted o (lefts o left) ->
+    StronglySorted (rle o) right ->
+    Permutation (join_sorted o left right) (join_unsorted o left right).
+Proof. exact join_sorted_perm_unsorted_single. Qed.
+Print Assumptions C13_sorted_equals_unsorted_single_field_partial.
 
 Example C13_nonvacuous :
   let o := mkOpts [B "id"] [B "id"] [B "id"] [] [] None false true true false in
@@ -114,3 +143,20 @@ Example C13_nonvacuous :
      [(B "id", B "3"); (B "r", B "q")]]
   /\ filter (fun l => negb (matched o right l)) (lefts o left) = [[(B "id", B "2"); (B "l", B "y")]; [(B "l", B "w")]].
 Proof. vm_compute. repeat split; reflexivity. Qed.
+
+(* the hypotheses of the sorted = unsorted theorem are met by a non-trivial input: duplicate keys on both sides,
+   an unmatched key on each side, a key-less right record *)
+Example C13_nonvacuous_sorted :
+  let o := mkOpts [B "id"] [B "id"] [B "id"] [] [] None false true true false in
+  let left := [[(B "id", B "1"); (B "l", B "x")]; [(B "id", B "1"); (B "l", B "z")]; [(B "id", B "2"); (B "l", B "y")]] in
+  let right := [[(B "id", B "1"); (B "r", B "p")]; [(B "r", B "nokey")]; [(B "id", B "1"); (B "r", B "q")]; [(B "id", B "3"); (B "r", B "s")]] in
+  (forall l, In l (lefts o left) -> has_keys o l = true)
+  /\ left_sorted o (lefts o left) /\ StronglySorted (rle o) right
+  /\ List.length (join_sorted o left right) = 7%nat
+  /\ join_sorted o left right <> join_unsorted o left right.
+Proof.
+  cbv zeta. split; [intros l [<-|[<-|[<-|[]]]]; reflexivity|].
+  split; [repeat constructor; unfold kle; vm_compute; discriminate|].
+  split; [repeat constructor; unfold rle; vm_compute; try exact I; discriminate|].
+  split; vm_compute; [reflexivity|discriminate].
+Qed.
